@@ -294,14 +294,40 @@ class ModuleInfo:
 
 def canonical_branches(tree: ast.AST) -> ast.AST:
     """`if not X: A else: B` and `if X: B else: A` are one program.  The rules are written for one of the two shapes; the tree is
-    brought into the shape whose test is not a negation before anything looks at it (line numbers stay with the statements)."""
+    brought into the shape whose test is not a negation before anything looks at it (line numbers stay with the statements).  Likewise a
+    loop body that ends in `if X: <rest>` and one that says `if not X: continue` before <rest>: the second shape is canonical."""
     class _Canon(ast.NodeTransformer):
         def visit_If(self, node: ast.If):
             self.generic_visit(node)
             if node.orelse and isinstance(node.test, ast.UnaryOp) and isinstance(node.test.op, ast.Not):
                 node.test, node.body, node.orelse = node.test.operand, node.orelse, node.body
             return node
-    return _Canon().visit(tree)
+    tree = _Canon().visit(tree)
+
+    def negate(t: ast.AST) -> ast.AST:
+        if isinstance(t, ast.UnaryOp) and isinstance(t.op, ast.Not):
+            return t.operand
+        n = ast.UnaryOp(op=ast.Not(), operand=t)
+        return ast.copy_location(n, t)
+
+    def guard_form(body):
+        """a loop body that ends in `if X: <rest>` (no else) is the same as `if not X: continue` followed by <rest>: the second
+        shape is the canonical one"""
+        while body and isinstance(body[-1], ast.If) and not body[-1].orelse and not (len(body[-1].body) == 1 and isinstance(body[-1].body[0], (ast.Continue, ast.Break, ast.Return, ast.Raise))):
+            last = body[-1]
+            skip = ast.If(test=negate(last.test), body=[ast.copy_location(ast.Continue(), last)], orelse=[])
+            ast.copy_location(skip, last)
+            body = body[:-1] + [skip] + list(last.body)
+        return body
+
+    class _Guards(ast.NodeTransformer):
+        def visit_For(self, node):
+            self.generic_visit(node)
+            node.body = guard_form(list(node.body))
+            return node
+        visit_While = visit_For
+        visit_AsyncFor = visit_For
+    return ast.fix_missing_locations(_Guards().visit(tree))
 
 
 class ProgramDB:
